@@ -21,20 +21,24 @@ def hist_behaviours(ctx):
     mc = '---- MODULE MCApprovalHist ----\nEXTENDS ApprovalHist\n%s\nASSUME JsonSerialize("hcfgs.json", HCfgs)\n====\n' % A.mc_tables(
         'ApprovalTok', 'ApprovalHist')
     base = ('CONSTANTS\n D = %d\n NameOf <- MCNameOf\n ValOf <- MCValOf\n' % A.D_VEC)
-    cfg = ('SPECIFICATION Spec\nINVARIANTS TypeOK PostedIsApprovedByItsBuilder\nPROPERTIES NoResend LeftoverResent BuiltIsFrozen\n'
-           'CHECK_DEADLOCK FALSE\n' + base + ' WeekSet = %s\n MaxRuns = %d\n' % (ctx.pick('{1}', '{1, 2}'), ctx.pick(2, 3)))
+    cfg = ('SPECIFICATION Spec\nINVARIANTS TypeOK PostedIsApprovedByItsBuilder\nPROPERTIES NoResend LeftoverResent BuiltIsFrozen BuiltUnderPublished\n'
+           'CHECK_DEADLOCK FALSE\n' + base + ' WeekSet = %s\n MaxRuns = %d\n MaxPub = %d\n' % (ctx.pick('{1}', '{1, 2}'), ctx.pick(2, 3), ctx.pick(2, 2)))
     r = ctx.tlc('MCApprovalHist', files={'MCApprovalHist.tla': mc}, cfg_text=cfg, workers=ctx.pick(4, 8), label='ApprovalHist-bfs', timeout=2400)
     if not r.ok:
         raise Infra('ApprovalHist: the specification violates %s %s\n%s' % (r.error, r.error_name, r.out[-3000:]))
-    cfg = 'SPECIFICATION Spec\nCHECK_DEADLOCK FALSE\n' + base + ' WeekSet = {1, 2, 3, 4}\n MaxRuns = 4\n'
-    r = ctx.tlc('MCApprovalHist', files={'MCApprovalHist.tla': mc}, cfg_text=cfg, simulate={'num': ctx.pick(40, 400), 'file': True},
-                depth=ctx.pick(8, 9), label='ApprovalHist-sim', count=False, timeout=2400)
-    if r.error:
-        raise Infra('ApprovalHist simulate: %s\n%s' % (r.error, r.out[-2000:]))
+    simfiles = []
+    # quick: the rhythmic walks only (they turn into free walks once MaxPub versions are published)
+    for spec, label in ((('Spec', 'ApprovalHist-sim'),) if ctx.thorough() else ()) + (('SpecCycle', 'ApprovalHist-sim-cycle'),):
+        cfg = 'SPECIFICATION %s\nCHECK_DEADLOCK FALSE\n' % spec + base + ' WeekSet = {1, 2, 3, 4}\n MaxRuns = 4\n MaxPub = 4\n'
+        r = ctx.tlc('MCApprovalHist', files={'MCApprovalHist.tla': mc}, cfg_text=cfg, simulate={'num': ctx.pick(40, 200), 'file': True},
+                    depth=ctx.pick(10, 12), label=label, count=False, timeout=2400)
+        if r.error:
+            raise Infra('%s: %s\n%s' % (label, r.error, r.out[-2000:]))
+        simfiles += ctx.sim_files(r)
     with open(os.path.join(r.dir, 'hcfgs.json')) as f:
         hcfgs = json.load(f)
     behs = []
-    for fn in ctx.sim_files(r):
+    for fn in simfiles:
         steps, seen, arrived = [], set(), []
         for (_a, _args, st) in tlaval.read_simulate(fn):
             last = st['last']
@@ -44,7 +48,7 @@ def hist_behaviours(ctx):
                         seen.add(f['id'])
                         arrived.append(f)
             elif last['op'] == 'run':
-                steps.append({'cfg': last['cfg'], 'x': last['x'], 'reply': last['reply'], 'files': arrived, 'obs': st['obs']})
+                steps.append({'cfg': last['cfg'], 'ver': last['ver'], 'fresh': bool(last['fresh']), 'x': last['x'], 'reply': last['reply'], 'files': arrived, 'obs': st['obs']})
                 arrived = []
         if steps:
             behs.append(steps)
@@ -251,7 +255,7 @@ def run(ctx):
         'rates, SampleRate and X are multiples of 1/8 (vectors) or 1/1024 (random half), hence exact float64 values; X is chosen by replacing crypto/rand.Reader by a reader that, per uploader run, returns a '
         'SEQUENCE of distinct values (k-th draw of the run = k-th value); every report is judged relative to the X field it carries itself',
         'that the posted report and local.<week>.json of one run carry the same X is recorded as a divergence warning, not as a violation (the statement speaks of "the report\'s random X"; what decides is the filter relative to the posted X)',
-        'histories (ApprovalHist) use one X value per run',
+        'histories (ApprovalHist) use one X value per run; every history is one machine with one config proxy and one environment, configurations are published there as successive versions between runs, and runs happen in the test process or in a fresh child process',
         'configurations outside the domain of the statement are not generated: a program listed twice, the same expanded counter name or stack name listed twice for a program, '
         'counter entries that are not <plain name> or <chart>:{<bucket>,...} with non-empty buckets, stack entries containing a newline',
         'C01 approves builds on program/version/Go version; a report that additionally drops builds whose GOOS/GOARCH the configuration does not list (the reading of C11) is accepted too',
@@ -277,10 +281,13 @@ def run(ctx):
 
     # ---- 2. model -> code: histories with leftover reports ----------------------------
     hcfgs, behs = hist_behaviours(ctx)
-    vers = {k: 'v0.77.%d' % (i + 1) for i, k in enumerate(sorted(hcfgs))}
+    vers = lambda n: 'v0.77.%d' % n        # every publication on a machine's config proxy is a new, higher version
     for j, steps in enumerate(behs):
-        cases.append({'id': nvec + j, 'steps': [A.step_of(hcfgs[s['cfg']], A.D_VEC, tl_files(s['files']), s['x'], reply=s['reply'], cfgver=vers[s['cfg']])
-                                                for s in steps]})
+        # one machine: one config proxy and one environment for all runs of the history; the configuration a
+        # run finds as "latest" is the one published last; runs happen in this process or in a fresh one
+        cases.append({'id': nvec + j, 'oneproxy': True,
+                      'steps': [dict(A.step_of(hcfgs[s['cfg']], A.D_VEC, tl_files(s['files']), s['x'], reply=s['reply'], cfgver=vers(s['ver'])), fresh=s['fresh'])
+                                for s in steps]})
     nhist = len(behs)
 
     # ---- 3. code -> model: random configurations / file sets ---------------------------
@@ -379,7 +386,7 @@ def check_histories(ctx, hcfgs, vers, behs, by, base):
             rec = by.get(base + j, {}).get(k)
             if rec is None:
                 raise Infra('no record for history %d step %d' % (j, k))
-            detail = {'history': [{'cfg': t['cfg'], 'x': t['x'], 'reply': t['reply'], 'files': tl_files(t['files'])} for t in steps[:k + 1]], 'step': k}
+            detail = {'history': [{'published': t['cfg'], 'version': t['ver'], 'fresh_process': t['fresh'], 'x': t['x'], 'reply': t['reply'], 'files': tl_files(t['files'])} for t in steps[:k + 1]], 'step': k}
             if rec.get('err'):
                 viol(ctx, '%s:run:%s' % (P, rec['err'].split(':')[0]), dict(detail, err=rec['err']), 'upload.Run: ' + rec['err'])
                 good = False
@@ -410,10 +417,14 @@ def check_histories(ctx, hcfgs, vers, behs, by, base):
                 for pr in body.problems:
                     viol(ctx, '%s:body:%s' % (P, pr.split(':')[0]), dict(det, problem=pr, body=q['body']), 'malformed report: ' + pr)
                     good = False
-                if body.x != b['x'] / d or body.config != vers[b['cfg']]:
+                if body.config != vers(b['ver']):
+                    viol(ctx, '%s:history:report-built-under-config-not-current-at-its-run' % P, dict(det, body=q['body'], published=vers(b['ver'])),
+                         'history %d run %d: the report for %s carries Config=%r; the configuration published when the run that built it started is %s (%s)' % (
+                             j, k, date, body.config, vers(b['ver']), b['cfg']))
+                    good = False
+                if body.x != b['x'] / d:
                     viol(ctx, '%s:history:report-not-the-one-built' % P, dict(det, body=q['body']),
-                                  'history %d run %d: the report for %s carries X=%r Config=%r, it was built with X=%g under %s' % (
-                                      j, k, date, body.x, body.config, b['x'] / d, vers[b['cfg']]))
+                         'history %d run %d: the report for %s carries X=%r, it was built with X=%g' % (j, k, date, body.x, b['x'] / d))
                     good = False
                 else:
                     good &= report_diff(ctx, 'history', cfg, d, b['x'], exp, body, det)
@@ -443,7 +454,7 @@ def check_histories(ctx, hcfgs, vers, behs, by, base):
             ok += 1
     if behs:
         s = behs[0]
-        ctx.sample({'kind': 'history', 'runs': [{'cfg': t['cfg'], 'x': t['x'], 'reply': t['reply'], 'arrived_files': [f['id'] for f in t['files']],
+        ctx.sample({'kind': 'history', 'runs': [{'published': t['cfg'], 'version': t['ver'], 'fresh_process': t['fresh'], 'x': t['x'], 'reply': t['reply'], 'arrived_files': [f['id'] for f in t['files']],
                                                 'posted_weeks': sorted(b['w'] for b in t['obs']['posts'])} for t in s]})
     return ok
 
